@@ -160,9 +160,9 @@ PROPS = {
                   "Exmex.C01.checkPre_toks", "Exmex.C01.findVars_toks", "Exmex.C14.evalNumbers_any_order",
                   "Exmex.C13.tokenize_render_spaced", "Exmex.C13.parse_spaced_eval_eq_denote"],
         level_text=("kernel-checked: parse_eval_eq_denote / parseWoCompile_eval_eq_denote / flat_eval_eq_denote - for every operator table (priorities 0..=99, flagged operators associative), every interpretation (the parser is generic), every well-formed expression and every text whose token stream is the expression's canonical token stream, parse succeeds, lists the documented variables and eval = the documented value (parentheses first, unary tighter and right-to-left, descending priority, left-to-right among equals; re-grouping of flagged operators only where invisible for associative operators); evalNumbers_any_order for any number of operands (both bit trackers); text level: tokenize_render_spaced / parse_spaced_eval_eq_denote - for the rendering with a space before every token the statement holds from the TEXT on with no run-time hypothesis; other renderings: the tokens are checked per case at run time"),
-        rule="random operator tables x random well-formed chains x random renderings; non-trivial = at least two binary operators; distinct by hash of the request (table, text)",
+        rule="random operator tables x random well-formed chains x random renderings; every evaluation entry point (eval, eval_vec, eval_iter; folded and unfolded) against the documented value; non-trivial = at least two binary operators; distinct by hash of the request (table, text)",
         kinds=[dict(kind="flat", quick=24000, thorough=1200000,
-                    corr=["wo", "vars", "nwo", "toksimpl"], oracle=[("wo_nf", "spec_nf"), ("c_nf", "spec_nf"), ("vars", "svars"), ("toksimpl", "stoks")],
+                    corr=["wo", "vars", "nwo", "toksimpl"], oracle=[("wo_nf", "spec_nf"), ("c_nf", "spec_nf"), ("cons_nf", "spec_nf"), ("wcons_nf", "spec_nf"), ("witer_nf", "spec_nf"), ("vars", "svars"), ("toksimpl", "stoks")],
                     guards=["render", "toks", "flatspec"], nontrivial=flat_nontrivial)],
     ),
     "C02": dict(
@@ -205,7 +205,9 @@ PROPS = {
                             ("fvars", "svars"), ("dvars", "svars"), ("f2dvars", "svars"), ("d2fvars", "svars"), ("hvars", "svars"),
                             ("br", "sbr_lo", [], "superset"), ("br", "sbr_hi", [], "subset"), ("dbr", "sbr_lo", [], "superset"), ("dbr", "sbr_hi", [], "subset"),
                             ("ur", "sur_lo", [], "superset"), ("ur", "sur_hi", [], "subset"), ("dur", "sur_lo", [], "superset"), ("dur", "sur_hi", [], "subset"),
-                            ("or", "sor_lo", [], "superset"), ("or", "sor_hi", [], "subset"), ("dor", "sor_lo", [], "superset"), ("dor", "sor_hi", [], "subset")],
+                            ("or", "sor_lo", [], "superset"), ("or", "sor_hi", [], "subset"), ("dor", "sor_lo", [], "superset"), ("dor", "sor_hi", [], "subset"),
+                            ("f2dbr", "sbr_lo", [], "superset"), ("f2dbr", "sbr_hi", [], "subset"), ("f2dur", "sur_lo", [], "superset"), ("f2dur", "sur_hi", [], "subset"),
+                            ("f2dor", "sor_lo", [], "superset"), ("f2dor", "sor_hi", [], "subset")],
                     guards=["render", "toks"], nontrivial=flat_nontrivial)],
     ),
     "C12": dict(
@@ -252,7 +254,7 @@ PROPS = {
                dict(kind="flat", quick=8000, thorough=200000, corr=["vars"], oracle=[("vars", "svars")],
                     guards=["render", "toks"], nontrivial=flat_nontrivial),
                # derived expressions (operator application, substitution, derivative): sorted union of the names
-               dict(kind="hist", quick=6000, thorough=60000, args=["diff"], corr=["pool", "steps"], oracle=[], nontrivial=lambda req, A, B: req.split("\t")[5].count("|") >= 1),
+               dict(kind="hist", quick=6000, thorough=60000, args=["diff"], corr=["pool", "steps"], oracle=[], oracle_const=[("varsbad", "-")], nontrivial=lambda req, A, B: req.split("\t")[5].count("|") >= 1),
                dict(kind="histf", quick=6000, thorough=100000, args=["diff"], no_model=True, corr=[], oracle_const=[("r", "ok")], nontrivial=lambda req, A, B: req.split("\t")[3].count("|") >= 1),
                dict(kind="histf", quick=4000, thorough=100000, args=["default"], no_model=True, corr=[], oracle_const=[("r", "ok")], nontrivial=lambda req, A, B: req.split("\t")[3].count("|") >= 1)],
     ),
@@ -273,7 +275,7 @@ PROPS = {
                     "The model of the whole calculation API (union of variables, shortcuts of + * / pow, unknown names) is tied to the code by exact symbolic correspondence on histories, "
                     "and the implementation is judged against an independent f64 reference (operator applied to the operands' values) at random points"),
         rule="pools of 2-5 parsed expressions with overlapping/disjoint variable sets, histories of 1-6 applications through operate_binary/operate_unary, the overloaded + - * / pow and neg (deep form) incl. unknown names; symbolic data type: exact comparison of value/variables/printed text with the Lean model after every step; f64: value at 3 tame points and variable list against the reference; non-trivial = at least 2 steps; distinct by request hash",
-        kinds=[dict(kind="hist", quick=8000, thorough=60000, corr=["pool", "steps"], oracle=[], nontrivial=lambda req, A, B: req.split("\t")[5].count("|") >= 1),
+        kinds=[dict(kind="hist", quick=8000, thorough=60000, corr=["pool", "steps"], oracle=[], oracle_const=[("varsbad", "-")], nontrivial=lambda req, A, B: req.split("\t")[5].count("|") >= 1),
                dict(kind="histf", quick=8000, thorough=100000, no_model=True, corr=[], oracle_const=[("r", "ok")], nontrivial=lambda req, A, B: req.split("\t")[3].count("|") >= 1)],
     ),
     "C11": dict(
@@ -288,10 +290,10 @@ PROPS = {
                     "subs goes through to_deepex/from_deepex (toDeep_sound, fromDeep_sound). The model of subs is tied to the code by exact symbolic correspondence, and the "
                     "implementation is judged against an independent f64 reference (substitution by environment) at random points"),
         rule="histories dominated by substitution steps (partial maps incl. self-referential, constant, renaming, swapping replacements; repeated substitution), flat and deep; symbolic: exact comparison with the Lean model; f64: values at tame points and variable lists against the reference; non-trivial = at least 2 steps; distinct by request hash",
-        kinds=[dict(kind="hist", quick=8000, thorough=60000, args=["subs"], corr=["pool", "steps"], oracle=[], nontrivial=lambda req, A, B: req.split("\t")[5].count("|") >= 1),
+        kinds=[dict(kind="hist", quick=8000, thorough=60000, args=["subs"], corr=["pool", "steps"], oracle=[], oracle_const=[("varsbad", "-")], nontrivial=lambda req, A, B: req.split("\t")[5].count("|") >= 1),
                dict(kind="histf", quick=8000, thorough=100000, args=["subs"], no_model=True, corr=[], oracle_const=[("r", "ok")], nontrivial=lambda req, A, B: req.split("\t")[3].count("|") >= 1),
                # substitution into derivatives (expressions that list variables which no longer occur)
-               dict(kind="hist", quick=5000, thorough=60000, args=["diff"], corr=["pool", "steps"], oracle=[], nontrivial=lambda req, A, B: "s:" in req.split("\t")[5]),
+               dict(kind="hist", quick=5000, thorough=60000, args=["diff"], corr=["pool", "steps"], oracle=[], oracle_const=[("varsbad", "-")], nontrivial=lambda req, A, B: "s:" in req.split("\t")[5]),
                dict(kind="histf", quick=5000, thorough=100000, args=["diff"], no_model=True, corr=[], oracle_const=[("r", "ok")], nontrivial=lambda req, A, B: "s:" in req.split("\t")[3])],
     ),
     "C05": dict(
@@ -311,7 +313,7 @@ PROPS = {
                     "to the code by exact symbolic correspondence of the derivative expressions, and the implementation is judged against an independent reference "
                     "(symbolic textbook differentiation evaluated in f64) at tame points"),
         rule="expression trees over + - * / ^ (variable exponents), unary +/-, sqrt ln log log2 log10 exp and the (inverse) trigonometric and hyperbolic functions, plus 0-10% operators without rule; index sequences of length 0..3; flat and deep; previously differentiated and substituted expressions; symbolic: exact comparison of the derivative expression with the Lean model; f64: value of the derivative at 3 tame points against textbook differentiation; non-trivial = at least one differentiation step; distinct by request hash",
-        kinds=[dict(kind="hist", quick=8000, thorough=60000, args=["diff"], corr=["pool", "steps"], oracle=[], nontrivial=lambda req, A, B: "p:" in req.split("\t")[5]),
+        kinds=[dict(kind="hist", quick=8000, thorough=60000, args=["diff"], corr=["pool", "steps"], oracle=[], oracle_const=[("varsbad", "-")], nontrivial=lambda req, A, B: "p:" in req.split("\t")[5]),
                dict(kind="histf", quick=10000, thorough=100000, args=["diff"], no_model=True, corr=[], oracle_const=[("r", "ok")], nontrivial=lambda req, A, B: "p:" in req.split("\t")[3])],
     ),
     "C09": dict(
@@ -329,7 +331,7 @@ PROPS = {
                     "symmetry of mixed partials (a fact about the functions denoted, judged numerically). The model is tied to the code by exact symbolic correspondence and "
                     "judged against the reference (error for an out-of-range index, variable list, sequential textbook derivatives)"),
         rule="as C05 with index sequences of length 0..3 incl. out-of-range entries (10%), repeated and mixed indices; the variable list of every derivative must equal that of its antiderivative (also after substitution), an out-of-range index must be an error; non-trivial = at least one differentiation step; distinct by request hash",
-        kinds=[dict(kind="hist", quick=8000, thorough=60000, args=["diff"], corr=["pool", "steps"], oracle=[], nontrivial=lambda req, A, B: "p:" in req.split("\t")[5]),
+        kinds=[dict(kind="hist", quick=8000, thorough=60000, args=["diff"], corr=["pool", "steps"], oracle=[], oracle_const=[("varsbad", "-")], nontrivial=lambda req, A, B: "p:" in req.split("\t")[5]),
                dict(kind="histf", quick=10000, thorough=100000, args=["diff"], no_model=True, corr=[], oracle_const=[("r", "ok")], nontrivial=lambda req, A, B: "p:" in req.split("\t")[3])],
     ),
     "C18": dict(
@@ -346,7 +348,7 @@ PROPS = {
                     "implementation is judged numerically on the real value type against branch-wise textbook differentiation at points off the branch boundaries"),
         rule="nested piecewise expressions `f if cond else g` with arithmetic around them, ints and floats mixed, comparison conditions that depend on a variable; parse_val(..).partial_iter(idxs).eval(point) at 3 tame points (>= 1e-3 away from every comparison boundary) against branch-wise textbook derivatives, order 1 and 2; comparisons at top level must stay untouched; plus the symbolic correspondence of the rule table (hist, piecewise profile); non-trivial = contains a piecewise or comparison node; distinct by request hash",
         kinds=[dict(kind="valdiff", quick=12000, thorough=400000, no_model=True, corr=[], oracle_const=[("r", "ok")], nontrivial=lambda req, A, B: b" if " in bytes.fromhex(req.split("\t")[1]) or A.get("judged", "0") != "0"),
-               dict(kind="hist", quick=6000, thorough=60000, args=["val"], corr=["pool", "steps"], oracle=[], nontrivial=lambda req, A, B: "p:" in req.split("\t")[5])],
+               dict(kind="hist", quick=6000, thorough=60000, args=["val"], corr=["pool", "steps"], oracle=[], oracle_const=[("varsbad", "-")], nontrivial=lambda req, A, B: "p:" in req.split("\t")[5])],
     ),
     "C19": dict(
         level="translation_validation",
@@ -356,9 +358,11 @@ PROPS = {
                     "equal to the documented table by the Lean kernel (decide); that a closure which is the primitive call computes the primitive is Rust semantics, cross-checked "
                     "bit for bit at run time for f32 and f64 on an exhaustive special-value catalogue and random values, directly and through parsed expressions"),
         technique="Lean 4 table theorem over source-extracted data + exhaustive bitwise cross-check",
-        rule="every operator and constant of the default table x {f32, f64} x special values {0, -0, +-1, subnormal, min normal, huge, +-inf, NaN, ...} (22 values; binary: all ordered pairs) exhaustively, random finite values across magnitudes; applied directly (Operator::bin/unary/constant) and through FlatEx::parse in infix, call and juxtaposition form and eval_str; bitwise comparison with an independent name->std primitive table; programs = operator applications; distinct by request hash",
+        rule="every operator and constant of the default table x {f32, f64} x special values {0, -0, +-1, subnormal, min normal, huge, +-inf, NaN, ...} (22 values; binary: all ordered pairs) exhaustively, random finite values across magnitudes; applied directly (Operator::bin/unary/constant) and through FlatEx::parse in infix, call and juxtaposition form and eval_str; bitwise comparison with an independent name->std primitive table; programs = operator applications; distinct by request hash; three-term chains `t0 o t1 o t2` of one table operator (one variable, two literals; folded, unfolded and deep) against the operator function applied left to right - only operators documented as re-associable may be regrouped",
         kinds=[dict(kind="fopx", quick=8988, thorough=8988, no_model=True, corr=[], oracle_const=[("r", "ok")], nontrivial=always),
-               dict(kind="fop", quick=20000, thorough=1000000, no_model=True, corr=[], oracle_const=[("r", "ok")], nontrivial=always)],
+               dict(kind="fop", quick=20000, thorough=1000000, no_model=True, corr=[], oracle_const=[("r", "ok")], nontrivial=always),
+               # the flags of the table as the evaluator uses them: x - 2 - 3 is (x - 2) - 3
+               dict(kind="chain3", quick=20000, thorough=400000, no_model=True, corr=[], oracle_const=[("r", "ok")], nontrivial=always)],
     ),
     "C20": dict(
         level="other",
@@ -404,10 +408,13 @@ PROPS = {
         theorems=["Exmex.C16.val_table_matches_doc", "Exmex.C16.val_bin_names", "Exmex.C16.val_un_names", "Exmex.C16.val_flagged", "Exmex.C01.parse_eval_eq_denote", "Exmex.C16.int_add", "Exmex.C16.int_div", "Exmex.C16.int_rem", "Exmex.C16.promote_left", "Exmex.C16.promote_right",
                   "Exmex.C16.eq_int_float", "Exmex.C16.eq_mismatch", "Exmex.C16.ord_mismatch", "Exmex.C16.error_absorbs", "Exmex.C16.unary_error", "Exmex.C16.if_else"],
         level_text=("kernel-checked over abstract floats: the typing table of the value type (int op int stays int with checked overflow, int/float promotes, comparisons across kinds, error absorption, if/else selection, bit operators on ints only ...: 17 table theorems plus val_table_matches_doc over the operator table extracted from the running library: names, priorities, flags); every operator on every pair of kinds and boundary values is compared with the model bit by bit at run time"),
-        rule="every unary operator of ValOpsFactory x every catalogue value and every binary operator x every ordered pair of catalogue values (17 ints incl. MIN/MAX/0/-1, 23 floats incl. NaN/inf/-0.0/subnormal/huge/int-range boundaries, bools, 7 arrays of length 0..5, none, error): 72012 applications, exhaustive; plus random operands; results compared by kind and bit pattern (NaN payload ignored, libm-backed functions to 9 digits); non-trivial = binary application; distinct by request hash",
+        rule="every unary operator of ValOpsFactory x every catalogue value and every binary operator x every ordered pair of catalogue values (17 ints incl. MIN/MAX/0/-1, 23 floats incl. NaN/inf/-0.0/subnormal/huge/int-range boundaries, bools, 7 arrays of length 0..5, none, error): 72012 applications, exhaustive; plus random operands; results compared by kind and bit pattern (NaN payload ignored, libm-backed functions to 9 digits); non-trivial = binary application; distinct by request hash; three-term chains `t0 o t1 o t2` of one table operator (one variable, two literals; folded, unfolded and deep) against the operator function applied left to right - only operators documented as re-associable may be regrouped",
         kinds=[dict(kind="valopx", quick=72012, thorough=72012, corr=["r"], oracle=[("r", "r")], norm=val_norm, nontrivial=lambda req, A, B: req.split("\t")[1] == "bin"),
                dict(kind="valop", quick=20000, thorough=1000000, corr=["r"], oracle=[("r", "r")], norm=val_norm, nontrivial=lambda req, A, B: req.split("\t")[1] == "bin"),
-               dict(kind="valexpr", quick=20000, thorough=600000, corr=["p", "vars", "r"], oracle=[("r", "r"), ("p", "p")], norm=valexpr_norm, nontrivial=lambda req, A, B: len(req.split("\t")[1]) >= 16)],
+               dict(kind="valexpr", quick=20000, thorough=600000, corr=["p", "vars", "r"], oracle=[("r", "r"), ("p", "p")], norm=valexpr_norm, nontrivial=lambda req, A, B: len(req.split("\t")[1]) >= 16),
+               # t0 o t1 o t2 with one operator of the built-in tables (one variable, two literals): left to right
+               # unless the documentation flags the operator as re-associable (flat folded/unfolded, deep)
+               dict(kind="chain3", quick=20000, thorough=400000, no_model=True, corr=[], oracle_const=[("r", "ok")], nontrivial=always)],
     ),
     "C17": dict(
         level="proof",
@@ -452,7 +459,9 @@ PROPS = {
         level_text=("kernel-checked: findOps_sound / findOps_longest (longest eligible name wins, for every table), name_continued_not_matched / exact_name_matched (identifier continuation), sign_role (a sign is unary exactly at the start or after an operator or opening parenthesis), isNumericText_spec (digits with at most one dot), brace_var (anything in braces is one variable), tokenize_render_spaced and the tokText lemmas (character level); the implementation is additionally judged against a reference tokenizer written from the statement"),
         rule="token streams of tokenize_and_analyze (hook) vs the Lean tokenizer and vs a reference tokenizer written in the harness from the statement (longest eligible name, identifier continuation, literal and brace rules; commas and unclosed braces not judged): operator/constant names extended and truncated by identifier and non-identifier characters in several left contexts, sign chains, literal spellings over {0,1,.}, braces with arbitrary content, call fragments, token soup; random tables with prefix-related names; plus well-formed renderings (flat kind) whose token stream must equal the canonical tokens of the chain; non-trivial = text of at least 2 characters; distinct by request hash",
         kinds=[dict(kind="lex", quick=30000, thorough=600000, corr=["toks"], oracle=[], oracle_const=[("ref", "ok")], nontrivial=lambda req, A, B: len(req.split("\t")[3]) >= 4),
-               dict(kind="flat", quick=8000, thorough=200000, corr=["wo", "vars"], oracle=[("toksimpl", "stoks")],
+               # the tokens, and what the parser makes of them (which signs are unary): value of the documented reading
+               dict(kind="flat", quick=8000, thorough=200000, corr=["wo", "vars"],
+                    oracle=[("toksimpl", "stoks"), ("wo_nf", "spec_nf", ["toks"]), ("c_nf", "spec_nf", ["toks"])],
                     guards=["render"], nontrivial=flat_nontrivial)],
     ),
     "C15": dict(
@@ -460,10 +469,15 @@ PROPS = {
         modules=["Exmex.Props.C15"],
         theorems=["Exmex.C15.consumeNodes_spec", "Exmex.C15.consuming_eq_cloning"],
         level_text=("kernel-checked: consumeNodes_spec / consuming_eq_cloning - for every flat expression and every value slice the consuming evaluation (eval_vec / eval_iter) returns the value of the borrowing one and clones each variable exactly (occurrences - 1) times; flat_eval_no_panic covers whatever the parsers accept"),
-        rule="flat generator (random tables, chains with repeated variables, folded and unfolded); eval_vec on a clone-counting data type whose Default is a visible hole; non-trivial = at least two binary operators; distinct by request hash",
+        rule="flat generator (random tables, chains with repeated variables, folded and unfolded); eval_vec on a clone-counting data type whose Default is a visible hole; non-trivial = at least two binary operators; distinct by request hash; every number of handed-over values 0..n+3 against `eval` on a slice of that length (value or error alike)",
         kinds=[dict(kind="flat", quick=24000, thorough=600000, args=["vars_repeat"],
                     corr=["cons", "c", "vars"], oracle=[("cons_nf", "spec_nf"), ("wcons_nf", "spec_nf"), ("witer_nf", "spec_nf"), ("clones", "sclones")],
-                    guards=["render", "toks"], nontrivial=flat_nontrivial)],
+                    guards=["render", "toks"], nontrivial=flat_nontrivial),
+               # every number of values 0..n+3: the consuming entry points return a value or an error exactly
+               # when `eval` on a slice of that length does; with the exact length, the same value
+               dict(kind="vars", quick=6000, thorough=150000, corr=["vars", "ar"], oracle=[("ar", "sar")],
+                    oracle_const=[("bind", "ok"), ("consume", "ok")], guards=["render", "toks"],
+                    nontrivial=lambda req, A, B: A.get("vars", "").count(",") >= 1)],
     ),
     "C14": dict(
         level="proof",
